@@ -359,6 +359,9 @@ class Splicer:
     def apply(self):
         spec = self.spec
         self.strip_attrs()
+        if spec.trusted and self.kw == "fn" and self.body_open >= 0:
+            self._apply_trusted()
+            return
         if spec.hoist:
             self.hoist_nested()
         # drops
@@ -524,6 +527,26 @@ class Splicer:
         # signature: ret + requires/ensures
         if self.kw == "fn":
             self._splice_signature()
+
+    def _apply_trusted(self):
+        """Assumed contract: keep the signature (with its rewrites and contract), replace the body."""
+        spec = self.spec
+        bo = self.body_open
+        bc = match_close(self.toks, bo)
+        for text, count in spec.drops:
+            pat = norm(text)
+            sig = self.live_sig(0, bo)
+            for p in _find_seq(self.toks, sig, pat):
+                self.remove_range(sig[p], sig[p + len(pat) - 1])
+        for rule, old, new, count in spec.rewrites:
+            pat = norm(old)
+            sig = self.live_sig(0, bo)
+            for p in _find_seq(self.toks, sig, pat):
+                a, b = sig[p], sig[p + len(pat) - 1]
+                self.replace[a] = (b, new, self.origin_code(self.toks[a]))
+        self.remove_range(bo + 1, bc - 1)
+        self.ins_after(bo, "unimplemented!()", ("tmpl", "trusted-body", 0))
+        self._splice_signature()
 
     def _lower_break_value(self, n, var, kw_idx, bo, bc, loops):
         # find `break` tokens belonging to this loop: not inside a nested loop (unless labelled with this loop's label), not in closures (ignored)
